@@ -84,7 +84,7 @@ package merkledag
 //@   prop C11
 //@   arith int
 //@   requires n != nil
-//@   modifies all
+//@   modifies heap
 //@   ensures[cid_cache_dropped] err == nil ==> n.cached == cid.Undef || n.builder == old(n.builder)
 //@   ensures[failed_changes_nothing] err != nil ==> n.builder == old(n.builder) && n.cached == old(n.cached)
 //@ func (*ProtoNode).marshalImmutable
@@ -95,6 +95,11 @@ package merkledag
 //@ func (*ProtoNode).CidBuilder
 //@   inline
 //@ func iface github.com/ipfs/go-cid.Builder.Sum
+// (callers outside this package see Cid() as touching the node's own caches only; what it returns is
+// pinned down by the contracts of EncodeProtobuf and the setters)
+//@ func (*ProtoNode).Cid
+//@   assumed
+//@   modifies fields(n)
 //@ func (*ProtoNode).EncodeProtobuf
 //@   prop C11
 //@   arith int
